@@ -170,6 +170,7 @@ let run_traj (mode : string) (b : Z.t list) (queries : string list) : string =
         let kind = qs.[0] in
         let t = qtime_of_hex (String.sub qs 1 (String.length qs - 1)) in
         let c = if mode = "h" then !cur else M.cursor0 tr in
+        if kind = 'd' then "d:" ^ show_res_code (fun d -> "0:" ^ string_of_z d) (M.total_duration_msec tr) else
         match M.seek tr c t with
         | M.Ok l ->
           cur := M.landing_cursor l;
